@@ -1382,6 +1382,10 @@ func decodeSchemaConstructs(dec *urlValuesDecoder, schemas []*openapi3.SchemaRef
 			if err != nil {
 				continue
 			}
+			if value == nil {
+				// the form has no value for this property: it is absent, not null
+				continue
+			}
 			if existingValue, exists := obj[name]; exists && !isEqual(existingValue, value) {
 				return fmt.Errorf("conflicting values for property %q", name)
 			}
